@@ -1,5 +1,6 @@
 SPECIFICATION MCSpec
 CONSTANTS Malformed = "ascoded"
+ ApiErr = "ascoded"
  Variant = "none"
  AltForks = {"electra"}
 INVARIANTS ClientFault4xx
